@@ -98,8 +98,10 @@ class Report:
         cov.update({k: v for k, v in self.extra.items() if k != 'explanation'})
         doc = {'property_id': self.pid, 'tier': self.tier, 'seed': int(self.seed), 'level': level, 'coverage': cov,
                'assumptions': self.assumptions, 'wall_s': round(time.time() - self.t0, 2), 'violations': len(self.violations)}
-        os.makedirs(os.path.join(VERIF, 'evidence'), exist_ok=True)
-        json.dump(doc, open(os.path.join(VERIF, 'evidence', self.pid + '.json'), 'w'), indent=1, default=str)
+        # self-test runs against scratch trees (selftest/*.sh) must not overwrite the evidence of the real tree
+        evdir = os.environ.get('VERIF_EVIDENCE_DIR') or os.path.join(VERIF, 'evidence')
+        os.makedirs(evdir, exist_ok=True)
+        json.dump(doc, open(os.path.join(evdir, self.pid + '.json'), 'w'), indent=1, default=str)
         for h in self.known_hits: print('KNOWN-FINDING: property=%s %s [%s] %s' % (self.pid, h['id'], h['site'], h['what']))
         for u in self.undecided: print('UNDECIDED obligation=%s reason=%s' % (u['obligation'], u['reason']))
         for v in self.violations:
